@@ -199,19 +199,29 @@ def eval_fault(case):
 
 
 # ------------------------------------------------------------------------------------------ components
-LABEL_FORMS = ('none', 'scalar', 'list1', 'list4', 'nobdf', 'shared', 'nones')   # shared: ONE scalar Labels object passed for every port
+LABEL_FORMS = ('none', 'scalar', 'list1', 'list4', 'list4rep', 'nobdf', 'shared', 'nones')   # shared: ONE scalar Labels object passed for every port
+
+
+def raw_labels(form, k):
+    """what the caller supplies, as plain values (the expectation is read from here, never from a Labels object)"""
+    if form == 'scalar':
+        return dict(bdf=f'0000:4{k}:00.0', mac=f'00:00:00:00:00:0{k}')
+    if form == 'list1':
+        return dict(bdf=[f'0000:4{k}:00.1'], mac=[f'00:00:00:00:01:0{k}'])
+    if form == 'list4':
+        return dict(bdf=[f'0000:4{k}:0{j}.0' for j in range(4)], mac=[f'00:00:00:00:0{j}:0{k}' for j in range(4)])
+    if form == 'list4rep':
+        # one entry per virtual function; functions may well share a VLAN or a NUMA node
+        return dict(bdf=[f'0000:4{k}:0{j}.0' for j in range(4)], mac=[f'00:00:00:00:0{j}:0{k}' for j in range(4)],
+                    vlan=['100', '100', '101', '100'], numa=['1', '1', '1', '1'])
+    if form == 'nobdf':
+        return dict(mac=f'00:00:00:00:02:0{k}', vlan_range='1-10')
+    return None
 
 
 def mk_labels(form, k):
-    if form == 'scalar':
-        return Labels(bdf=f'0000:4{k}:00.0', mac=f'00:00:00:00:00:0{k}')
-    if form == 'list1':
-        return Labels(bdf=[f'0000:4{k}:00.1'], mac=[f'00:00:00:00:01:0{k}'])
-    if form == 'list4':
-        return Labels(bdf=[f'0000:4{k}:0{j}.0' for j in range(4)], mac=[f'00:00:00:00:0{j}:0{k}' for j in range(4)])
-    if form == 'nobdf':
-        return Labels(mac=f'00:00:00:00:02:0{k}', vlan_range='1-10')
-    return None
+    raw = raw_labels(form, k)
+    return None if raw is None else Labels(**raw)
 
 
 def component_cases():
@@ -366,7 +376,7 @@ def eval_component(case):
         want_units = 1
         if lab == 'list1':
             want_units = 1
-        if lab == 'list4':
+        if lab in ('list4', 'list4rep'):
             want_units = 4
         caps = i.get_capacities()
         if caps is None or caps.unit != want_units:
@@ -378,7 +388,7 @@ def eval_component(case):
         if L is None:
             bad('labels-missing', p)
             continue
-        want_local = [p] * want_units if lab in ('list1', 'list4') else p
+        want_local = [p] * want_units if lab in ('list1', 'list4', 'list4rep') else p
         if L.local_name != want_local:
             bad('local-name', f'{p}: {L.local_name!r} expected {want_local!r}')
         if lab == 'nones':
@@ -389,9 +399,10 @@ def eval_component(case):
             # the caller's label objects are the caller's: generating a component does not write into them
             if labels[k].__dict__ != src.__dict__:
                 bad('caller-labels-modified', f'{p}: the Labels object passed in is now {labels[k]} (was {src})')
-            for f in ('bdf', 'mac', 'vlan_range'):
-                if getattr(L, f) != getattr(src, f):
-                    bad('label-placement', f'{p}: {f}={getattr(L, f)!r} expected {getattr(src, f)!r}')
+            raw = raw_labels('scalar', 0) if lab == 'shared' else raw_labels(lab, k)
+            for f in ('bdf', 'mac', 'vlan_range', 'vlan', 'numa'):
+                if getattr(L, f) != raw.get(f):
+                    bad('label-placement', f'{p}: {f}={getattr(L, f)!r} expected {raw.get(f)!r}')
         else:
             if any(getattr(L, f) is not None for f in ('bdf', 'mac')):
                 bad('label-invented', f'{p}: {L}')
